@@ -477,7 +477,10 @@ func blockContainerLayout(context *layoutContext, box_ Box, bottomSpace pr.Float
 		resumeAt = nil
 	}
 
-	if bi := string(box.Style.GetBreakInside()); boxIsFragmented && avoidPageBreak(bi, context) && !pageIsEmpty {
+	// A forced break (nextPage.Break is "any" for unforced ones only) is honoured
+	// inside a box that avoids breaks: it is not a reason to move the box.
+	forcedInside := nextPage.Break != "any"
+	if bi := string(box.Style.GetBreakInside()); boxIsFragmented && !forcedInside && avoidPageBreak(bi, context) && !pageIsEmpty {
 		for _, footnote := range allFootnotes {
 			context.unlayoutFootnote(footnote)
 		}
